@@ -40,4 +40,8 @@ PROPS = {
               "non-trivial = >5 transactions committed; distinct = distinct event-log digest",
               "deterministic simulation; conservation invariant over folded block deltas, re-checked across flushes and restarts",
               "No explored block created or destroyed micro-algos.", "DESIGN.md §4 C18"),
+    "C14": _p("one evaluation = one seeded history of >=45 blocks with catchpoint tracking on (interval 4-8, CatchpointLookback 8) processed by a primary ledger and two replicas; each replica has its own block-feed bursts relative to the fake clock (own flush schedule), own crashes (copy of its files) and clean reloads, "
+              "own MaxAcctLookback / LRU setting and own merkle-trie memory configuration (nodes per page 4-512, cached nodes 0-9000); every catchpoint label any of them reports is recorded per round; non-trivial = >=1 label compared between two ledgers; distinct = distinct event-log digest",
+              "deterministic simulation: replicas with different flush/restart/crash schedules and trie configurations over one history; differential catchpoint labels",
+              "For every catchpoint round reached by two ledgers in every explored run the labels are identical, and no ledger ever changes a label it reported.", "DESIGN.md §4 C14"),
 }
